@@ -140,3 +140,173 @@ def in_body(loop: ast.stmt, node: ast.AST) -> bool:
         if contains(b, node):
             return True
     return False
+
+
+# ------------------------------------------------------------------------------------------------
+# normalisation: inline local aliases and trivial helper calls, so that rules see roles instead of local names
+# ------------------------------------------------------------------------------------------------
+
+def _reads(e: ast.AST):
+    """Names and `name.attr` chains an expression reads."""
+    names, attrs = set(), set()
+    for n in ast.walk(e):
+        if isinstance(n, ast.Name):
+            names.add(n.id)
+        elif isinstance(n, ast.Attribute):
+            d = dotted(n)
+            if d:
+                attrs.add(d)
+    return names, attrs
+
+
+def _rebinds(st: ast.AST):
+    """Names and attribute chains re-bound by statement `st` (element stores do not re-bind)."""
+    names, attrs = set(), set()
+    targets = []
+    if isinstance(st, ast.Assign):
+        targets = st.targets
+    elif isinstance(st, (ast.AugAssign, ast.AnnAssign)):
+        targets = [st.target]
+    elif isinstance(st, (ast.For, ast.AsyncFor)):
+        targets = [st.target]
+    elif isinstance(st, (ast.With, ast.AsyncWith)):
+        targets = [i.optional_vars for i in st.items if i.optional_vars is not None]
+    for t in targets:
+        for x in ([t] if not isinstance(t, (ast.Tuple, ast.List)) else t.elts):
+            if isinstance(x, ast.Name):
+                names.add(x.id)
+            elif isinstance(x, ast.Attribute):
+                d = dotted(x)
+                if d:
+                    attrs.add(d)
+            elif isinstance(x, ast.Starred) and isinstance(x.value, ast.Name):
+                names.add(x.value.id)
+    return names, attrs
+
+
+def alias_is_stable(ctx, f: FunctionInfo, defstmt, use_node: ast.AST, value: ast.AST) -> bool:
+    """May `value` (the right-hand side of `defstmt`) be substituted at `use_node`?  True when nothing `value` reads is
+    re-bound on a path from the definition to the use."""
+    from .cfg import stmt_of
+    cfg = ctx.cfg(f)
+    use_st = stmt_of(cfg, use_node)
+    if use_st is None or defstmt not in cfg.g:
+        return False
+    rn, ra = _reads(value)
+    for st in cfg.stmts():
+        if st is defstmt:
+            continue
+        wn, wa = _rebinds(st)
+        hit = (wn & rn) or any(a == b or b.startswith(a + ".") for a in wa for b in ra)
+        if not hit:
+            continue
+        if st is use_st:
+            # the use statement itself re-binds what the alias reads (`self._n = row + 1`): the right-hand side is evaluated first
+            continue
+        if cfg.reachable_after(defstmt, st) and cfg.reachable_after(st, use_st):
+            return False
+    return True
+
+
+def inline_locals(ctx, f: FunctionInfo, node: ast.AST, *, depth: int = 6, keep=()) -> ast.AST:
+    """Copy of expression `node` in which every local name with exactly one reaching definition `name = <expr>` is replaced by
+    <expr> (recursively), provided the alias is stable (see alias_is_stable).  Parameters and names in `keep` stay."""
+    import copy as _copy
+    from .dataflow import assigned_value
+    rd = ctx.rd(f)
+
+    def T(n, d, origin):
+        if isinstance(n, ast.Name) and isinstance(n.ctx, ast.Load) and n.id not in keep and d > 0:
+            defs = rd.defs_reaching(n) if origin is None else rd.defs_reaching(origin)
+            # `origin` is the original (un-copied) node whose position decides which definitions reach; for names that come
+            # from an inlined right-hand side the definitions reaching the *defining statement* apply
+            if len(defs) == 1 and not isinstance(defs[0], ast.arguments):
+                v = assigned_value(defs[0], n.id)
+                if v is not None and isinstance(v, (ast.Name, ast.Attribute, ast.Subscript, ast.Call, ast.BinOp, ast.UnaryOp,
+                                                    ast.Compare, ast.Constant, ast.IfExp, ast.Tuple, ast.BoolOp, ast.JoinedStr)):
+                    if alias_is_stable(ctx, f, defs[0], n if origin is None else origin, v):
+                        return T(v, d - 1, None)
+            return _copy.copy(n)
+        if not isinstance(n, ast.AST):
+            return n
+        new = _copy.copy(n)
+        for field, val in ast.iter_fields(n):
+            if isinstance(val, list):
+                setattr(new, field, [T(x, d, None) if isinstance(x, ast.AST) else x for x in val])
+            elif isinstance(val, ast.AST):
+                setattr(new, field, T(val, d, None))
+        return new
+    return T(node, depth, None)
+
+
+def inline_helper_call(ctx, f: FunctionInfo, call: ast.Call) -> Optional[ast.AST]:
+    """If `call` resolves to exactly one repository function whose body is a single `return <expr>` (after an optional
+    docstring), return <expr> with the parameters replaced by the call's arguments; else None."""
+    import copy as _copy
+    targets, how = ctx.cg.resolve_call(f, call)
+    if len(targets) != 1 or how in ("by-name",):
+        return None
+    g = targets[0]
+    body = [s for s in g.node.body if not (isinstance(s, ast.Expr) and isinstance(s.value, ast.Constant))]
+    if len(body) != 1 or not isinstance(body[0], ast.Return) or body[0].value is None:
+        return None
+    params = list(g.params)
+    if g.cls is not None and not g.is_static and params:
+        params = params[1:]
+    if any(isinstance(a, ast.Starred) for a in call.args) or any(k.arg is None for k in call.keywords):
+        return None
+    binding = {}
+    for i, a in enumerate(call.args):
+        if i < len(params):
+            binding[params[i]] = a
+    for k in call.keywords:
+        binding[k.arg] = k.value
+    # defaults
+    a = g.node.args
+    pos = [x.arg for x in a.posonlyargs + a.args]
+    for i, dflt in enumerate(a.defaults):
+        nm = pos[len(pos) - len(a.defaults) + i]
+        binding.setdefault(nm, dflt)
+
+    def S(n):
+        if isinstance(n, ast.Name) and isinstance(n.ctx, ast.Load) and n.id in binding:
+            return _copy.copy(binding[n.id])
+        if not isinstance(n, ast.AST):
+            return n
+        new = _copy.copy(n)
+        for field, val in ast.iter_fields(n):
+            if isinstance(val, list):
+                setattr(new, field, [S(x) if isinstance(x, ast.AST) else x for x in val])
+            elif isinstance(val, ast.AST):
+                setattr(new, field, S(val))
+        return new
+    return S(body[0].value)
+
+
+def normalise(ctx, f: FunctionInfo, node: ast.AST, *, depth: int = 6) -> ast.AST:
+    """inline_locals + inline_helper_call, to a fixpoint of at most `depth` rounds."""
+    cur = inline_locals(ctx, f, node, depth=depth)
+    for _ in range(depth):
+        changed = False
+
+        def R(n):
+            nonlocal changed
+            if isinstance(n, ast.Call):
+                e = inline_helper_call(ctx, f, n)
+                if e is not None:
+                    changed = True
+                    return R(e)
+            if not isinstance(n, ast.AST):
+                return n
+            import copy as _copy
+            new = _copy.copy(n)
+            for field, val in ast.iter_fields(n):
+                if isinstance(val, list):
+                    setattr(new, field, [R(x) if isinstance(x, ast.AST) else x for x in val])
+                elif isinstance(val, ast.AST):
+                    setattr(new, field, R(val))
+            return new
+        cur = R(cur)
+        if not changed:
+            break
+    return cur
